@@ -571,6 +571,31 @@ class ExprBuilder:
             return ("place", _norm_self(s), p["ty"])
         if not rest:
             return e
+        # a component of a tuple / struct value built right here (e.g. the pair a spliced helper returns):
+        # the projection selects that component
+        def component(x, rest_, d=0):
+            while rest_ and rest_[0]["k"] == "field" and x[0] == "agg" and x[1] in ("tuple", "adt") and not (x[1] == "adt" and len(x) > 6 and x[6]) and rest_[0].get("idx") is not None and rest_[0]["idx"] < len(x[5]):
+                if x[1] == "adt" and x[3] not in (None, "") and rest_[0].get("adt") and False:
+                    break
+                x = x[5][rest_[0]["idx"]]
+                rest_ = rest_[1:]
+                while rest_ and rest_[0]["k"] == "deref" and x[0] == "ref":
+                    x = x[2]
+                    rest_ = rest_[1:]
+            return x, rest_
+
+        if rest and rest[0]["k"] == "field":
+            if e[0] == "agg" and e[1] == "tuple":
+                e, rest = component(e, rest)
+            elif e[0] == "phi" and all(a[0] == "agg" and a[1] == "tuple" for a in e[2]):
+                parts = [component(a, list(rest)) for a in e[2]]
+                if len({len(r_) for _x, r_ in parts}) == 1:
+                    rest = parts[0][1]
+                    e = ("phi", e[1], tuple(x for x, _r in parts))
+            if e[0] == "place":
+                return ("place", _norm_self(e[1] + proj_str(rest)), p["ty"])
+            if not rest:
+                return e
         ps = proj_str(rest)
         # `?` on the result of a spliced helper: Try::branch(phi(Ok{v} | from_residual(..) ..))@Continue.0
         # is v (the Continue payload exists only on the Ok alternative)
